@@ -104,6 +104,7 @@ def base_comps(task, tier):
                     for var in variants(s, tier):
                         kw = dict(tol=1e-10)
                         kw.update(var)
+                        kw = R.fix_kw(s, dn, kw)
                         sspec = dict(name=s, kw=kw)
                         from mc.comp import fit_intercept_of
                         W = R.starts(p_eff, fit_intercept_of(sspec), tier, multitask)
